@@ -160,6 +160,16 @@ class Stream(ModelMixin["Stream"], Base):
 
     timing_reference = property(get_timing_reference, set_timing_reference)
 
+    def delete_media_file(self, mf: MediaFile) -> None:
+        """
+        Removes a media file from this stream. If it was the timing
+        reference, the stream no longer has a timing reference.
+        """
+        tref = self.get_timing_reference()
+        if tref is not None and tref.media_name == mf.name:
+            self.set_timing_reference(None)
+        db.session.delete(mf)
+
     def duration(self) -> datetime.timedelta:
         tref = self.get_timing_reference()
         if tref is not None:
